@@ -170,6 +170,15 @@ func c05(r *hx.Run) {
 					j.typ, T, j.w.from, j.w.until, delta, in, j.v.name, impl.Core(), model.Core()),
 				map[string]interface{}{"variant": j.v.name, "type": j.typ, "from": j.w.from, "until": j.w.until, "T": T})
 		}
+		// the window is judged under the protocol version the operation was batched under (0), not under a later version that
+		// is in force at its anchoring time and has another delta
+		rm2, err2 := ResolveImpl(hostileSecondVersion(ver, uint64(T)-100), suffix, placed)
+		r.Eval()
+		if impl2 := ProjectImpl(rm2, err2); impl2 != impl {
+			r.Violation(fmt.Sprintf("window-under-version-at-anchoring-time:%s", j.typ), caseID,
+				fmt.Sprintf("%s (protocol version 0) anchored at T=%d with anchorFrom=%d anchorUntil=%d resolves differently once a later protocol version with another delta is in force at T\n  one version : %s\n  two versions: %s",
+					j.typ, T, j.w.from, j.w.until, impl.Core(), impl2.Core()), nil)
+		}
 		// intake: spy must see the effective window
 		_, perr := ver.Parser.Parse("did:sidetree", req)
 		wantUntil := j.w.until
